@@ -53,7 +53,38 @@ LOCAL_EXTERNS.update(blas_spec.LOCAL_EXTERNS)
 for b_ in ('axpy', 'scal', 'gemv', 'gemm', 'syrk', 'symv', 'copy', 'swap'):
     LOCAL_EXTERNS[b_ + '[]'] = table(b_)
 
+def post_scal_extent(ex, finished, extra_obs):
+    """degenerate products (a dimension of A is zero) reduce to y := beta*y:
+    the scaling must cover the strided extent of y, i.e. the BLAS routine is
+    given a positive increment |incy| (xSCAL does nothing for incx <= 0).
+    Reported under C16 (mixed sparse / dense products)"""
+    from engine.cvc.exec import Oblig
+    done = set()
+    n = 0
+    for st, kind, val in finished:
+        parsed = st.ghost.get('parsed', {})
+        iy = parsed.get('incy')
+        if iy is None:
+            continue
+        iy = iy.t if isinstance(iy, IntV) else iy
+        for rec in st.calls:
+            if id(rec) in done or not rec.name.endswith('scal_'):
+                continue
+            done.add(id(rec))
+            n += 1
+            inc = rec.args['ints'].get('incx')
+            goal = inc == z3.If(iy >= 0, iy, -iy)
+            text = ('when a dimension of A is zero, y := beta*y is applied '
+                    'over the strided extent of y: scal(len, beta, y, '
+                    '|incy|)')
+            extra_obs.append(Oblig('%s:effect-extent:%s' % (ex.fname, text),
+                                   'effect-extent', list(rec.pc),
+                                   z3.simplify(goal), text, rec.line))
+    return {'scal_calls': n}
+
+
 FUNCS = {}
 for f in ('base_axpy', 'base_gemv', 'base_gemm', 'base_syrk', 'base_symv'):
-    FUNCS[f] = {'init': driver.pycfunction_init, 'post': None,
+    FUNCS[f] = {'init': driver.pycfunction_init,
+                'post': post_scal_extent if f == 'base_gemv' else None,
                 'config': {'allow_unsupported': ['sp_', 'spmatrix', 'SP_']}}
